@@ -95,3 +95,25 @@ Proof.
     + apply (WF_mine_lock _ Hwf'). rewrite (w_mine _ (wf_w _ Hwf')). exact Hi'.
     + cbn. lia.
 Qed.
+
+(* the one-to-one attribute without a column: get_for_update(w = obj) either finds the already locked object or fails loudly *)
+Lemma getfu_rev_locks : forall oracle locked s, WF s -> (locked = true -> 0 < k_forupd s)%nat ->
+  match run_op oracle (OGetFURev locked) s with
+  | (Ok, s') => locked = true /\ k_intxn s' = true /\ mine s' = true /\ lock s' = true
+  | (Err e, s') => locked = false /\ e = ENotImpl /\ trace s' = trace s
+  | (Blocked, _) => False
+  end.
+Proof.
+  intros oracle locked s Hwf Hl. cbn [run_op]. unfold bind.
+  assert (Ht : trace (snd (get_cache s)) = trace s) by (unfold get_cache; destruct (k_reg s); reflexivity).
+  destruct (get_cache_spec s Hwf) as (s1 & Hg & Hwf1 & Hx1 & _ & Hsame & _). rewrite Hg in *. cbn [snd] in Ht.
+  destruct locked; unfold ret, raise.
+  - specialize (Hl eq_refl).
+    assert (Hi : k_intxn s = true) by (apply (wf_forupd _ Hwf); exact Hl).
+    assert (Hr : k_reg s = true).
+    { destruct (k_reg s) eqn:E; auto. destruct (WF_noreg s Hwf E). congruence. }
+    rewrite (Hsame Hr). repeat split; auto.
+    + rewrite (w_mine _ (wf_w _ Hwf)). exact Hi.
+    + apply (WF_mine_lock _ Hwf). rewrite (w_mine _ (wf_w _ Hwf)). exact Hi.
+  - repeat split; auto.
+Qed.
